@@ -484,5 +484,36 @@ func genG11(repo string, w *Out) error {
 		})
 	}
 	w.DefStrList("listener_stacking", stackOrder)
+
+	// ---- the Accept methods of the listener wrappers run inside the accept loop as well: the
+	// calls they make on the freshly accepted connection (anything but handing it to a wrapper
+	// constructor known not to touch the socket) are listed like those of Serve
+	rl, err := Parse(repo, "ratelimit/listener.go")
+	if err != nil {
+		return err
+	}
+	wrapperCtors := map[string]bool{
+		"connfu.Combine": true, "connfu.CombineWithConfig": true, "tls.Server": true,
+		"conntrack.Builder{ TrackTraffic: l.TrackTraffic, OnClose: l.metrics.close, }.Build": true,
+	}
+	var accCalls []string
+	for _, x := range []struct {
+		f  *File
+		fn string
+	}{{nf, "Listener.Accept"}, {pp, "Listener.Accept"}, {rl, "Listener.Accept"}} {
+		fd, err := x.f.Func(x.fn)
+		if err != nil {
+			return err
+		}
+		for _, id := range []string{"c", "conn", "pc"} {
+			for _, c := range x.f.callsOnIdent(fd.Body.List, id) {
+				if strings.HasPrefix(c, "<escape:") && wrapperCtors[strings.TrimSuffix(strings.TrimPrefix(c, "<escape:"), ">")] {
+					continue
+				}
+				accCalls = append(accCalls, x.f.Path+":"+c)
+			}
+		}
+	}
+	w.DefStrList("listener_accept_calls", accCalls)
 	return genG11Shutdown(repo, w)
 }
